@@ -179,12 +179,19 @@ def check_property(prop, tier, seed, only=None):
         runs.append(info)
         results.update(res)
         # candidate violations -> native replay
-        for name, r in res.items():
+        # smallest counterexamples first: concrete playback of a large trace can take many minutes
+        for name, r in sorted(res.items(), key=lambda kv: (kv[1].duration_s or 0)):
             if r.status == "failure" and r.failed:
                 real_fail = [f for f in r.failed if "unwinding assertion" not in f["description"]]
                 if not real_fail:
                     continue
                 unknown = [f for f in real_fail if not known_match(known, prop, name, f)]
+                if unknown and violations and time.time() - t0 > budget:
+                    # a violation has already been reproduced natively and the wall budget is used up: further failing
+                    # harnesses are listed but not replayed (the exit status is 1 either way)
+                    r.replay = {"verdict": "not_replayed", "path": None, "detail": "budget exhausted after an earlier reproduced violation"}
+                    print("  further failing harness (not replayed, budget exhausted): %s: %s" % (name, unknown[0]["description"]))
+                    continue
                 if unknown:
                     verdict, rpath, detail = replay_candidate(scratch, repo_copy, target_dir, log_dir, prop, r)
                     r.replay = {"verdict": verdict, "path": rpath, "detail": detail}
